@@ -42,7 +42,8 @@ TYPES = {"str": str, "int": int, "float": float, "bool": bool, "list": list, "tu
          "set": set, "frozenset": frozenset, "NoneType": type(None), "bytes": bytes}
 COQ_TY = {"str": "TStr", "int": "TInt", "float": "TFloat", "bool": "TBool", "list": "TList", "tuple": "TTuple",
           "dict": "TDict", "set": "TSet", "frozenset": "TFrozen", "NoneType": "TNone", "bytes": "TBytes"}
-DEFECTS = ["K16", "K16b", "K16c", "K16d", "K16e", "K16f"]
+DEFECTS = ["K16", "K16b", "K16c", "K16d", "K16e", "K16f"]      # switches of the reference search
+FINDINGS = DEFECTS + ["K16g"]
 
 
 class _Method:
@@ -280,7 +281,7 @@ def kwargs_of(cfg):
 # ---------------------------------------------------------------------------
 
 STRS = ["a", "b", "ab", "abc", "A", "aB", "Abc", "ABC", "x y", "1", "10", "1.5", "2", "k1", "none", "None", "True", "true",
-        "root", "", "xa", "b1", "0.5", "-1", "a.c", "éa", "a\U0001d1c0"]
+        "root", "", "xa", "b1", "0.5", "-1", "a.c", "éa", "a\U0001d1c0", "a'b", 'a"b', "a]b[", "x.y z"]
 BYTES = [b"a", b"ab", b"A", b"", b"1"]
 PATTERNS = ["a.", "^a", "b$", "[0-9]+", "\\d", ".*", "A|b", "\\S", "\\S+", "[A-Z]", "a?b", "\\[1\\]", "'a'", "oo", "\\W", "\\.5$", "^1$", "(a|1)+", "\\Bb"]
 EXCL_RX = ["\\[1\\]", "root\\['a'\\]", "\\[\\d+\\]$", "'b'", "^root\\[0\\]", "\\['?k", "None", "\\]\\["]
@@ -477,12 +478,18 @@ def expected_of(res, verbose2):
 # ---------------------------------------------------------------------------
 
 def tame(steps):
+    """'tame' (Coq: tame_path - extract must resolve the path), 'k16g' (search.py's own printer writes a text
+    path.py cannot parse back: str key with a single quote, bytes key) or 'c09' (key ending in the escape
+    character: parser finding K6 of C09, not a matter of DeepSearch)."""
+    out = "tame"
     for kind, x in steps:
-        if kind == "k" and isinstance(x, bytes):
-            return False
-        if kind == "k" and isinstance(x, str) and (x == "" or any(ch in x for ch in "'\"[]\U0001d1c0")):
-            return False
-    return True
+        if kind != "k":
+            continue
+        if isinstance(x, bytes) or (isinstance(x, str) and "'" in x):
+            return "k16g"
+        if isinstance(x, str) and x.endswith("\U0001d1c0"):
+            out = "c09"
+    return out
 
 
 def compare(ref, res, verbose2):
@@ -554,8 +561,9 @@ def oracle(ctx, obj, item, cfg, res, locs):
                 cands = by_text.get(text, [])
                 if not cands:        # not a location: already reported by the comparison with the reference
                     continue
-                if len(cands) > 1 or not tame(cands[0][0]):
-                    ctx.count("extract:skipped_ambiguous_or_hostile_key")
+                kind = tame(cands[0][0])
+                if len(cands) > 1 or kind == "c09":
+                    ctx.count("extract:skipped_ambiguous_text_or_C09_key")
                     continue
                 steps, v = cands[0]
                 if verbose2 and not V.typed_eq(val, v):
@@ -570,11 +578,12 @@ def oracle(ctx, obj, item, cfg, res, locs):
                     good = V.typed_eq(got, v)
                 except Exception as e:
                     got, good = "%s: %s" % (type(e).__name__, e), False
-                ctx.count("extract:checked")
+                ctx.count("extract:checked_" + kind)
                 if not good:
                     ok = False
-                    ctx.fail(case_dict(obj, item, cfg, "extract(obj, %r) gives %r, reported/held value %r" % (text, got, v)),
-                             "extract() on a reported path does not give the reported value")
+                    c = case_dict(obj, item, cfg, "extract(obj, %r) gives %r, reported/held value %r" % (text, got, v))
+                    c["explained_by"] = ["K16g"] if kind == "k16g" else []
+                    ctx.fail(c, "extract() on the reported path %s does not give the reported value" % text)
     return ok
 
 
@@ -601,7 +610,7 @@ def _explained(key):
     return m
 
 
-MATCHERS = {k: _explained(k) for k in DEFECTS}
+MATCHERS = {k: _explained(k) for k in FINDINGS}
 
 WITNESSES = {
     "K16": ({'a': 1.5, 'b': 'x1.5'}, '1.5', {"exclude_types": ["float"], "strict_checking": False}),
@@ -610,6 +619,7 @@ WITNESSES = {
     "K16d": ([b'abc'], 'a', {}),
     "K16e": ([True], 'True', {"strict_checking": False}),
     "K16f": ({None: 'a'}, None, {}),
+    "K16g": ({"a'b": 'x'}, 'x', {}),
 }
 # second witness of K16 (Coq: complete_refuted): nothing is reported when the item's own type is excluded
 EXTRA_WITNESSES = [("K16", [1], '1', {"exclude_types": ["str"], "strict_checking": False})]
@@ -752,6 +762,12 @@ def witnesses(ctx):
         kw = kwargs_of(cfg)
         res = run_impl(copy.deepcopy(obj), item, kw)
         diff = compare(ref_search(obj, item, kw), res, True)
+        if key == "K16g":       # this one fails in extract(), not in the search result
+            from deepdiff import extract
+            try:
+                diff = None if res[0] == "ok" and all(extract(obj, t) == v for t, v in res[2]) else "extract fails"
+            except Exception:
+                diff = "extract raises"
         open_ = any(f["key"] == key and f.get("status") == "open" for f in ctx.findings)
         if open_ and diff is None:
             ctx.break_("correspondence", {"name": "finding_witness", "key": key,
